@@ -98,7 +98,7 @@ fn rac_lsp_glue() {
                         if let CodeActionOrCommand::CodeAction(ca) = a {
                             if ca.title != title { continue; }
                             let Some(edit) = ca.edit.as_ref().and_then(|e| e.changes.as_ref()).and_then(|c| c.values().next()).and_then(|v| v.first()) else { continue; };
-                            if edit.range != want { continue; }
+                            // (any range/new_text pair is fine as long as the client-side result is right)
                             // (3) apply like a client
                             let s = rac_client_index(&src, edit.range.start);
                             let e = rac_client_index(&src, edit.range.end);
